@@ -550,7 +550,7 @@ class Normalizer:
                 return ("atom", "any" + self._comp_key(_as_gen(a)))
         # truthiness; len(x) truthiness == truthiness of x for sized containers
         if isinstance(e, ast.Call) and astx.u(e.func) == "len" and len(e.args) == 1:
-            return ("atom", f"ge({self.key(e)}, 1)")
+            return ("atom", f"truthy({self.key(e.args[0])})")
         if isinstance(e, ast.Call) and astx.u(e.func) == "bool" and len(e.args) == 1:
             return self._guard(e.args[0])
         return ("atom", f"truthy({self.key(e)})")
@@ -591,7 +591,7 @@ class Normalizer:
                 return ("atom", f"ge({kr}, {kl})")
             return ("atom", f"ge({kl}, {kr})")
         p = d.n.scale(1 / d.d.const_value())
-        return self._cmp_poly(p, type(op))
+        return _len_truthiness(self._cmp_poly(p, type(op)))
 
     def _looks_numeric(self, e: ast.AST, depth: int = 0) -> bool:
         if isinstance(e, ast.Constant):
@@ -651,6 +651,34 @@ class Normalizer:
         if op is ast.Gt:
             return neg(("atom", f"le({qk}, {c})"))
         raise NotClosedForm(f"operator {op}")
+
+
+_LEN_GE1 = __import__("re").compile(r"ge\(len\((.*)\), 1\)$")
+_LEN_EQ0 = __import__("re").compile(r"eq\(len\((.*)\), 0\)$")
+
+
+def _balanced(t: str) -> bool:
+    d = 0
+    for ch in t:
+        d += ch in "([{"
+        d -= ch in ")]}"
+        if d < 0:
+            return False
+    return d == 0
+
+
+def _len_truthiness(g):
+    """len(X) >= 1  <=>  X is truthy ;  len(X) == 0  <=>  not X   (sized containers)."""
+    if g[0] == "not":
+        return neg(_len_truthiness(g[1]))
+    if g[0] == "atom":
+        m = _LEN_GE1.match(g[1])
+        if m and _balanced(m.group(1)):
+            return ("atom", f"truthy({m.group(1)})")
+        m = _LEN_EQ0.match(g[1])
+        if m and _balanced(m.group(1)):
+            return neg(("atom", f"truthy({m.group(1)})"))
+    return g
 
 
 def _as_gen(c):
